@@ -86,7 +86,13 @@ def list_dispatch(ctx, f, pname="phi", rule="R-SIB"):
         from ..rules import bool_equiv
         core, _ = classifier_core(m, f, pname)
         if isinstance(tg, ast.Tuple) and core is not None and bool_equiv(core, canonical_classifier()):
-            ctx.ob(rule, f, key, True, "own pair handling, preceded by the shared three-way classifier", own[0].iter)
+            # both non-pair forms (flat list, singleton-nested / single row) must be CONVERTED to pairs [K, K] before the unpacking
+            conv = [n for n in walk_no_nested(f.node) if isinstance(n, ast.Assign) and len(n.targets) == 1 and isinstance(n.targets[0], ast.Name) and n.targets[0].id == pname
+                    and isinstance(n.value, ast.ListComp) and isinstance(n.value.elt, (ast.List, ast.Tuple)) and len(n.value.elt.elts) == 2
+                    and unparse(n.value.elt.elts[0]) == unparse(n.value.elt.elts[1])]
+            okc = len(conv) >= 2
+            ctx.ob(rule, f, key, okc, "own pair handling, preceded by the shared three-way classifier with both conversions to [K, K] pairs" if okc else
+                   f"only {len(conv)} of the two non-pair Kraus forms (flat list, singleton-nested list) is converted to [K, K] pairs before `for {unparse(tg)} in {pname}` unpacks pairs", own[0].iter)
         elif isinstance(tg, ast.Tuple):
             ctx.ob(rule, f, key, False,
                    f"`for {unparse(tg)} in {pname}` unpacks every list element as a pair: flat ([K1,..]) and singleton-nested ([[K1],..]) "
@@ -265,6 +271,23 @@ def run(ctx):
             e = Np(n.args[0])
             ok = any(isinstance(s, tuple) and s and s[0] == "call" and s[1] == "numpy.sqrt" and s[2] and s[2][0][0] == "sub" and s[2][0][1] == ("n", "prob") for s in subterms(e))
             ctx.ob("R-COV", pch, "Kraus operator weight sqrt(p_j)", ok, "sqrt(prob[j]) * P_j" if ok else f"Kraus weight {show(e)[:60]}", n)
+    # enumeration of the 4^q Pauli strings: one term per probability, the index vector advanced (base 4) once per term
+    Npp = Normalizer(m, pch, inline=False)
+    for lp in walk_no_nested(pch.node):
+        if isinstance(lp, ast.For) and any(isinstance(x, ast.Call) and m.resolve_call(pch, x).key.endswith("pauli.pauli") for x in ast.walk(lp)):
+            okr = Npp(lp.iter) in (("call", "builtins.range", (("call", "builtins.len", (("n", "prob"),), ()),), ()), ("call", "builtins.range", (("**", ("c", 4), ("n", "q")),), ()))
+            adv = [x for x in ast.walk(lp) if isinstance(x, ast.Assign) and isinstance(x.value, ast.Call) and m.resolve_call(pch, x.value).key.endswith("update_odometer.update_odometer")]
+            oka = False
+            if adv:
+                b_ = m.bind(adv[0].value, m.resolve_call(pch, adv[0].value).func)
+                tgt = adv[0].targets[0].id if isinstance(adv[0].targets[0], ast.Name) else None
+                lim = Npp(b_["upper_lim"]) if isinstance(b_.get("upper_lim"), ast.AST) else None
+                oka = isinstance(b_.get("old_ind"), ast.Name) and b_["old_ind"].id == tgt and lim is not None and lim[0] == "*" and ("c", 4) in lim[1] and "numpy.ones" in repr(lim)
+                used = any(isinstance(x, ast.Call) and m.resolve_call(pch, x).key.endswith("pauli.pauli") and tgt in {y.id for y in ast.walk(x) if isinstance(y, ast.Name)} for x in ast.walk(lp))
+                oka = oka and used
+            ctx.ob("R-ENUM", pch, "one Pauli string per probability: index vector advanced base 4 once per term", bool(okr and oka),
+                   "ind = update_odometer(ind, 4 * ones(q)) inside the loop over all probabilities" if okr and oka else
+                   "the index vector is not advanced (or not base 4, or not used by pauli()) inside the loop: every term uses the same Pauli string", lp)
     ctx.notes.append("observation: pauli_channel draws from the legacy global RNG for scalar `prob` (outside C06's clauses)")
 
     # depolarizing / dephasing / reduction / choi: |psi><psi| with dagger, unnormalised
